@@ -342,21 +342,26 @@ int convert_msa_to_internal(struct msa* msa, int type)
         struct alphabet* a = NULL;
         struct msa_seq* seq = NULL;
         int8_t* t = NULL;
-        int i,j;
+        int8_t unknown;
+        int i,j,c;
 
         RUNP(a = create_alphabet(type));
 
         t = a->to_internal;
         msa->L = a->L;
+        /* letters the alphabet does not know become the ambiguity code  */
+        unknown = (type == ALPHA_defDNA) ? t[(int)'N'] : t[(int)'X'];
         for(i = 0; i <  msa->numseq;i++){
                 seq = msa->sequences[i];
                 for(j =0 ; j < seq->len;j++){
-                        if(t[(int) seq->seq[j]] == -1){
+                        c = (unsigned char) seq->seq[j];
+                        if(c > 127 || t[c] == -1){
                                 WARNING_MSG("there should be no character not matching the alphabet");
                                 WARNING_MSG("offending character: >>>%c<<<", seq->seq[j]);
                                 /* exit(0); */
+                                seq->s[j] = unknown;
                         }else{
-                                seq->s[j] = t[(int) seq->seq[j]];
+                                seq->s[j] = t[c];
                         }
                 }
 
